@@ -13,6 +13,36 @@ import contextlib, io, json, os, re, shutil, warnings, zlib
 from . import common as C
 
 PID = "C20"
+
+# Scratch directory of THIS run: created once by the parent process (C.workdir gives one directory per OS process) and
+# inherited by the forked workers through this global.  Every scratch path of the check is below it and carries the
+# worker's pid and a counter, so concurrent runs and concurrent workers never share a path; nothing outside it is removed.
+_WD = [None]
+_COUNTER = [0]
+
+
+def set_wd(path):
+    _WD[0] = path
+
+
+def wd(*sub):
+    """A directory below the run's scratch directory (created).  Harness I/O trouble is a machinery error."""
+    if _WD[0] is None:
+        raise C.MachineryError("scratch directory of the run is not set")
+    d = os.path.join(_WD[0], *sub)
+    try:
+        os.makedirs(d, exist_ok=True)
+    except OSError as e:
+        raise C.MachineryError(f"cannot create scratch directory {d}: {e}")
+    return d
+
+
+def unique(prefix):
+    """A name unique per OS process and per use."""
+    _COUNTER[0] += 1
+    return f"{prefix}-{os.getpid()}-{_COUNTER[0]}"
+
+
 NAMED = ["json_alias", "arg_not_json", "ext_not_npy", "report_before_first_start", "time_text_boundary"]
 
 # ----------------------------------------------------------------------------- small helpers
@@ -82,9 +112,7 @@ def cf_arg(aid):
 
 class RealCF:
     def __init__(self, ext, args, tag):
-        self.dir = os.path.join(C.WORK, PID, "cf", f"{os.getpid()}-{tag}")
-        shutil.rmtree(self.dir, ignore_errors=True)
-        os.makedirs(self.dir)
+        self.dir = wd("cf", unique("c"))
         self.path = os.path.join(self.dir, "cache." + ext)
         self.args = args
         self.evals = 0
@@ -122,6 +150,8 @@ class RealCF:
             r = self.fn(*args, **kwargs)
             return False, [[r["id"], plain(r["ver"])]]
         except Exception:
+            if not os.path.isdir(self.dir):
+                raise C.MachineryError(f"cache directory {self.dir} disappeared during the run")
             return True, []
 
     def obs(self):
@@ -133,7 +163,11 @@ class RealCF:
                 cached.append(os.path.isfile(hash_file_name(self.path, args, kwargs)))
             except TypeError:
                 cached.append(False)
-        return {"evals": self.evals, "nfiles": len(os.listdir(self.dir)), "cached": cached}
+        try:
+            nfiles = len(os.listdir(self.dir))
+        except OSError as e:
+            raise C.MachineryError(f"cache directory {self.dir} is not readable: {e}")
+        return {"evals": self.evals, "nfiles": nfiles, "cached": cached}
 
     def close(self):
         shutil.rmtree(self.dir, ignore_errors=True)
@@ -317,9 +351,10 @@ def new_real(w, tag=0):
 
 
 def cfg_module(thorough):
-    d = 1 if thorough else 0
-    depth = {"cf": 4, "cfx": 3 + d, "sw0": 5 + d, "sw1": 4 + d, "pb1": 4 + d, "pb2": 4 + d,
-             "nd1": 2 + d, "nd2": 3 + d, "nd3": 3 + d, "nd4": 2 + d}
+    if thorough:
+        depth = {"cf": 4, "cfx": 4, "sw0": 6, "sw1": 5, "pb1": 5, "pb2": 5, "nd1": 3, "nd2": 4, "nd3": 4, "nd4": 3}
+    else:
+        depth = {"cf": 3, "cfx": 3, "sw0": 4, "sw1": 4, "pb1": 4, "pb2": 4, "nd1": 2, "nd2": 3, "nd3": 3, "nd4": 2}
     args = "<<" + ", ".join(f'[id |-> "{a}", json |-> {json.dumps(cf_json(a))}]' for a in CF_ARGS) + ">>"
     return f"""---- MODULE Helpers2Cfg ----
 EXTENDS Helpers2MC
@@ -355,12 +390,11 @@ CHECK_DEADLOCK FALSE
 
 
 def run_mc2(thorough, workers=None):
-    wd = os.path.join(C.workdir(PID, clean=False), "h2mc")
-    os.makedirs(wd, exist_ok=True)
+    d = wd("h2mc")
     mod, depth = cfg_module(thorough)
-    with open(os.path.join(wd, "Helpers2Cfg.tla"), "w") as f:
+    with open(os.path.join(d, "Helpers2Cfg.tla"), "w") as f:
         f.write(mod)
-    r = C.run_tlc(wd, "Helpers2Cfg", CFG, workers=workers)
+    r = C.run_tlc(d, "Helpers2Cfg", CFG, workers=workers)
     r.depth2 = depth
     return r
 
@@ -527,12 +561,11 @@ TRACE_CFG = "SPECIFICATION TSpec\nINVARIANT Accept\nCHECK_DEADLOCK FALSE\n"
 
 
 def validate2(traces, workers=None):
-    wd = os.path.join(C.workdir(PID, clean=False), "h2trace")
-    os.makedirs(wd, exist_ok=True)
-    f = os.path.join(wd, "traces2.json")
+    d = wd("h2trace")
+    f = os.path.join(d, "traces2.json")
     with open(f, "w") as fh:
         json.dump(traces, fh)
-    r = C.run_tlc(wd, "Helpers2Trace", TRACE_CFG, env={"TRACE_FILE": f}, want_records=False, workers=workers)
+    r = C.run_tlc(d, "Helpers2Trace", TRACE_CFG, env={"TRACE_FILE": f}, want_records=False, workers=workers)
     out = r.stdout.replace("\n", " ")
     r.acc = {int(m.group(1)): set(re.findall(r'"([^"]+)"', m.group(2)))
              for m in re.finditer(r'<<\s*"ACCEPT2",\s*(\d+),\s*(\{[^}]*\})\s*>>', out)}
